@@ -53,3 +53,23 @@ chk("C11", "exploration",
     "Round trip: boundary old sizes x 5000+ proof lists x 2800+ checkpoint byte strings written by two writers must parse back exactly; every proof list incl. the empty one through Proof.Marshal/Unmarshal. Refusal: every string of <= 5 (quick) / 6 (thorough) tokens over a 12-token alphabet and the complete 1-edit neighbourhood of four valid bodies are classified by a reference parser written from the spec; must-refuse bodies that are understood, or refusals that return data, are violations. Leniencies the property does not name are not judged.",
     "Exhaustive over the stated finite sets only, not over all byte strings.",
     "DESIGN.md §5 C11, §4.4", True)
+chk("C12", "model_checking",
+    "product explicit-state BFS over several logs with a differential oracle (each log's answers compared with a one-log witness replaying only its requests), all interleavings of per-log histories, and enumeration of identity / configuration cases",
+    "For every reachable product state of two logs that share a signing key under different origins (IDs forced to share a prefix) and of three logs, every request naming log X - including every other log's checkpoints submitted under X's ID - must leave all other components byte-identical and must be answered exactly as a witness that only ever saw X's requests answers it. By induction this covers interleavings of any length; all interleavings of independently chosen histories are also executed directly. Identity: six interfaces derive the same ID for 15 origins; all 84 small configurations are refused iff an origin repeats.",
+    "Bounded sizes (0..3/4). Single-log reference runs on the same code (differential, not an independent model) - the independent model is C09's.",
+    "DESIGN.md §5 C12")
+chk("C13", "fault_enumeration",
+    "deviation-bounded DFS over every environment answer of one feed cycle (fetch, get-latest, fetch-proof, update, back-off timer) with a reference model of the cycle as oracle",
+    "For 378 (witness state x log head x log kind x stub/real witness) scenarios the real FeedOnce runs with every environment call answered by the explorer (success, transient failure, 'another feeder advanced the witness', timer fires / context ends), for every placement of up to 2 (quick) / 4 (thorough) non-default answers. Per attempt: old size = size reported in that attempt, proof = the one fetched in that attempt from exactly that checkpoint, nothing sent for an unverifiable checkpoint or when the witness is ahead, success after failures clear, result bytes = witness's bytes, no call after the context ended; with the real witness the final state must be the log head.",
+    "Back-off timer replaced through a build overlay of backoff/timer.go (fires at once or never); executions are serial because the hook is global.",
+    "DESIGN.md §5 C13")
+chk("C15", "fault_enumeration",
+    "exhaustive assignment enumeration of (witness answer x distributor answer) per log over the real DistributeOnce with a recording stub distributor",
+    "All 6400 assignments for 1-2 logs over a menu of 10 witness answers x 8 distributor answers, and for 3-6 logs every assignment with up to 2 (quick) / 3 (thorough) deviating logs at every position. Oracle: one PUT per valid log at the right path with byte-identical body, none for others, all logs attempted, error iff some failed with the right count.",
+    "In-process RoundTripper; a connection error is modelled as failing before the body is read. Checkpoints with a second foreign witness signature are outside the claim.",
+    "DESIGN.md §5 C15")
+chk("C16", "model_checking",
+    "explicit-state BFS over a three-log witness with a read-API monitor (router + bundled client + log list) after every transition, ground truth read straight from the store",
+    "After every transition of the search the registered mux router and client/http.Witness are queried for all three logs and the log list and compared with ground truth (for SQL the chkpts table itself, not the persistence object): 200+exact bytes / 404, client bytes / os.ErrNotExist, list = logs with an accepted update (refused first submissions, including one refused after the store was opened, create no entry); 20 odd IDs never yield another log's checkpoint.",
+    "Sizes 0..5 (quick) / 0..8 (thorough). In-memory ground truth necessarily goes through the store's own read path.",
+    "DESIGN.md §5 C16")
